@@ -128,6 +128,8 @@ def bump_number(s, rng):
     if not runs:
         return s
     i, j = runs[-1] if rng.random() < 0.6 else rng.choice(runs)
+    if j - i > 18:
+        return s
     v = int(s[i:j]) + rng.choice([1, 2, 2, 3, 5, 10, -1, -2])
     return s[:i] + str(max(v, 0)) + s[j:]
 
